@@ -1957,6 +1957,11 @@ def argsort(a, axis=-1, kind=None):
     return _int_array(order)
 
 
+def negative(a):
+    a = asarray(a)
+    return -a
+
+
 def roll(a, shift, axis=None):
     a = asarray(a)
     if axis is not None or a.ndim != 1:
